@@ -175,6 +175,9 @@ func (r *Run) Violate(sig, what string, replay any) {
 		}
 	}
 	r.violSigs[sig]++
+	if what == "" {
+		return // a further occurrence of a class already reported in detail: counted only
+	}
 	if r.violSigs[sig] > 3 || len(r.viol) >= 40 {
 		return
 	}
@@ -268,6 +271,12 @@ func (r *Run) Finish() int {
 		fmt.Printf(" %s=%d", k, r.counters[k])
 	}
 	fmt.Println()
+	if len(r.viol) == 0 && len(r.violSigs) > 0 {
+		for sg := range r.violSigs {
+			fmt.Printf("VIOLATION property=%s replay=(none)\n   signature: %s\n", r.Prop, sg)
+		}
+		return 1
+	}
 	if len(r.viol) > 0 {
 		for _, v := range r.viol {
 			fmt.Printf("VIOLATION property=%s replay=%s\n   signature: %s\n   %s\n", r.Prop, v.Replay, v.Sig, trunc(v.What, 600))
